@@ -1,5 +1,11 @@
 import PyYetiVerif.Lemmas.NasFloat
+import PyYetiVerif.Lemmas.NasFloatRat
+import PyYetiVerif.Lemmas.NasFloatLast
+import PyYetiVerif.Lemmas.NasFloatChain
 import PyYetiVerif.Lemmas.NasCards
+import PyYetiVerif.Lemmas.NasCardsTrip
+import PyYetiVerif.Lemmas.NasCardsLarge
+import PyYetiVerif.Lemmas.NasCardsComma
 /-!
 # C12 — Nastran number fields: exact width, best precision; cards round-trip
 
@@ -66,14 +72,313 @@ example : ∃ r ∈ neg8, ∃ x : Dbl, isFixed r = true ∧ RowOK 8 true r ∧ x
   ⟨⟨10, 1, true, 5, 2, 0, 1⟩, by decide, ⟨true, 9999996, 1000000⟩, by decide, by decide, rfl, by decide,
     fixed_branch_width 8 sci8 true _ (by decide) _ rfl (by decide)⟩
 
-/-- Accuracy of the rounding step of a fixed-notation branch (`'%.pf'`): the integer `N` whose
-digits are printed satisfies `|N/10^p − num/den| ≤ ½·10^{-p}` (stated without division).
-[partial: that `strip`/`replace`/`nas_sscanf` preserve the value of the digits is established by
-the correspondence and the oracle, not proved.] -/
-theorem fixed_branch_accuracy_partial (p : Nat) (x : Dbl) (hden : 0 < x.den) :
-    let N := rheDiv (x.num * 10 ^ p) x.den
-    2 * (N * x.den) ≤ 2 * (x.num * 10 ^ p) + x.den ∧ 2 * (x.num * 10 ^ p) ≤ 2 * (N * x.den) + x.den :=
-  rheDiv_err _ _ hden
+/-! ## the reader on emitted fields -/
+
+/-- `nas_sscanf` on the grammar of emitted real fields (`Spec/NasFloatField`:
+`' '* [-] digit* '.' digit* [[D](+|-)digit+]`, at least one mantissa digit, exponent ≤ 5000): every
+well-formed field, with any left padding, is read as a *real* (never as an integer, a string or a
+blank) — the double nearest (ties to even) to the decimal `± ip.fp · 10^{±exp}` the field denotes.
+Covers the `d → e` rewriting and the sign-as-exponent rewriting `s[0] + s[1:].replace("+","e+")
+.replace("-","e-")` (`1.5-3`, `-1.5+10`, `.5-3`, `1.D+0`). -/
+theorem sscanf_parses_field (f : Fld) (hwf : f.wf = true) (pad : Nat) (k : Bool) :
+    nasSscanf (List.replicate pad ' ' ++ f.text) k = .flt (toBits f.dec.1 f.dec.2.1 f.dec.2.2) :=
+  nasSscanf_field f hwf pad k
+
+/-- the same with the grammar as a decidable predicate on strings: whatever the recogniser
+`fieldOf?` accepts is read as the real nearest to the decimal of the recognised field. -/
+theorem sscanf_parses_recognised (s : Str) (f : Fld) (h : fieldOf? s = some f) (k : Bool) :
+    nasSscanf s k = .flt (toBits f.dec.1 f.dec.2.1 f.dec.2.2) :=
+  nasSscanf_of_fieldOf? s f h k
+
+/-- non-vacuity: `1.5-3`, `-1.235+7` (sign as exponent), `1.2345678D+0`, `-.5` are in the grammar -/
+example : (fieldOf? "   1.5-3".toList).isSome ∧ (fieldOf? "-1.235+7".toList).isSome ∧
+    (fieldOf? "    1.2345678D+0".toList).isSome ∧ (fieldOf? "     -.5".toList).isSome ∧
+    fieldOf? "     123".toList = none ∧ fieldOf? "GRID".toList = none := by decide
+
+/-! ## fixed-notation branches end to end -/
+
+/-- **Accuracy of a fixed-notation branch, end to end.**  For a row satisfying `RowOK` and every
+fraction `x = ± num/den` of the row's sign with `10^-p ≤ |x|` (one unit of the last decimal), the
+branch emits a well-formed field `f` of the grammar, right-justified (`strip(" 0")`,
+`replace("-0.", "-.")` preserve the value of the printed digits); `nas_sscanf` reads the emitted
+text back as the real nearest to the decimal of `f`; and that decimal is within half a unit of the
+last decimal of `x`: `|field − x| ≤ ½·10^-p`. -/
+theorem fixed_branch_accuracy (W : Nat) (c : Sci) (neg : Bool) (r : Row) (hr : RowOK W neg r)
+    (x : Dbl) (hneg : x.neg = neg) (hden : 0 < x.den) (hlo : x.den ≤ x.num * 10 ^ r.prec) (k : Bool) :
+    ∃ f : Fld, f.wf = true ∧ f.ex = none ∧ f.neg = neg ∧ f.fp.length ≤ r.prec ∧
+      rowBody W c neg r x = rjust W f.text ∧
+      nasSscanf (rowBody W c neg r x) k = .flt (toBits f.dec.1 f.dec.2.1 f.dec.2.2) ∧
+      |decRat f.dec - dblRat x| ≤ 1 / 2 * (10 : ℚ) ^ (-(r.prec : Int)) := by
+  simp only [RowOK] at hr
+  obtain ⟨_, _, _, hp, hk3, hkind, _⟩ := hr
+  have hkind' : r.kind = 2 ∨ (r.kind = 3 ∧ neg = true) := by
+    rcases hkind with h | h
+    · exact Or.inl h
+    · exact Or.inr ⟨h, (hk3.1 h).1⟩
+  have hshape := rowBody_shape W c neg r hp hkind' x hneg
+  have hN : 0 < rheDiv (x.num * 10 ^ r.prec) x.den :=
+    rheDiv_ge _ _ 1 hden (by simpa using hlo)
+  refine ⟨_, fixedFld_wf _ _ _ _ hN, rfl, rfl, (fixedFld_val _ _ _ _).1, hshape, ?_,
+    fixed_rat_err neg _ r.prec x hden hneg⟩
+  rw [hshape, rjust]
+  exact nasSscanf_field _ (fixedFld_wf _ _ _ _ hN) _ k
+
+/-- **`p` is the largest precision that fits**: no fixed-notation field `[-]ip.fp` of at most `W`
+characters for a number of the row's sign with `k` integer digits (`10^(k-1) ≤ ip`, `k` the row's
+decade) carries more than the row's `p` decimals — so the half unit `½·10^-p` of
+`fixed_branch_accuracy` is the best a `W`-wide fixed-notation field can do. -/
+theorem fixed_precision_maximal (W : Nat) (neg : Bool) (r : Row) (hr : RowOK W neg r) (f : Fld)
+    (hwf : f.wf = true) (hex : f.ex = none) (hneg : f.neg = neg) (hlen : f.text.length ≤ W)
+    (hdec : 10 ^ (W - ((if neg then 1 else 0) + 1 + r.prec)) ≤ 10 * digitsVal f.ip) :
+    f.fp.length ≤ r.prec := by
+  simp only [RowOK] at hr
+  obtain ⟨hW, _, _, _, _, _, _⟩ := hr
+  obtain ⟨hip, _, _, _⟩ := wf_parts f hwf
+  have hlt := digitsVal_lt f.ip hip
+  have hk : W - ((if neg then 1 else 0) + 1 + r.prec) ≤ f.ip.length := by
+    by_contra hcon
+    have h1 : f.ip.length + 1 ≤ W - ((if neg then 1 else 0) + 1 + r.prec) := by omega
+    have h2 : 10 ^ (f.ip.length + 1) ≤ 10 ^ (W - ((if neg then 1 else 0) + 1 + r.prec)) :=
+      Nat.pow_le_pow_right (by norm_num) h1
+    rw [pow_succ] at h2
+    omega
+  have htext : f.text.length = (if neg then 1 else 0) + f.ip.length + 1 + f.fp.length := by
+    rcases f with ⟨fneg, ip, fp, ex⟩
+    simp only at hex hneg
+    subst hex hneg
+    cases fneg <;> simp [Fld.text, Fld.mant, Fld.exText] <;> omega
+  omega
+
+/-- non-vacuity: the `[1, 10)` row of the 8-wide positive table at `x = 9.9999996` (a value that
+rounds to the next power of ten) satisfies every hypothesis of `fixed_branch_accuracy`. -/
+example : ∃ r ∈ pos8, ∃ x : Dbl, RowOK 8 false r ∧ x.neg = false ∧ 0 < x.den ∧
+    x.den ≤ x.num * 10 ^ r.prec ∧ x.num * r.den < r.num * x.den :=
+  ⟨⟨10, 1, true, 6, 2, 0, 1⟩, by decide, ⟨false, 99999996, 10000000⟩, by decide, rfl, by decide,
+    by decide, by decide⟩
+
+/-! ## scientific fall-backs -/
+
+/-- the constants of `_format_scientific8`, `_format_scientific16`, `format_double16` as extracted
+from the source satisfy `SciOK`: the field fills the width exactly for either sign and 1–3 exponent
+digits, at least one decimal, first rounding ≥ 2 digits finer than the second, `10^ePrec < 2^50`. -/
+theorem sci_consts_ok : SciOK 8 sci8 0 ∧ SciOK 16 sci16 0 ∧ SciOK 16 dbl16 1 := by decide
+
+/-- **Scientific fall-backs: width, grammar, read-back and accuracy** (generic in the constants).
+For constants satisfying `SciOK` and every fraction `x` with `10^-999 ≤ |x| < 10^999`, the body
+of `_format_scientificW` / `format_double16` returns exactly `W` characters; they are a well-formed
+field of the grammar of the sign of `x` (with the `D` mark iff asked for), which `nas_sscanf` reads
+back as the real nearest to its decimal; and that decimal is within
+`(½·10^-P + ½·10^-q)·10^E` of `x` — half a unit of the last of the `P` decimals the width leaves
+for that sign and exponent `E`, plus half a unit of the `q`-decimal first rounding (`q ≥ P + 2`:
+the 1 % slack of the two-stage rounding; measured maximum 0.5045 units). -/
+theorem sci_width_accuracy (W : Nat) (c : Sci) (dm : Bool) (hc : SciOK W c (if dm then 1 else 0))
+    (x : Dbl) (hn : 0 < x.num) (hd : 0 < x.den)
+    (hlo : x.den ≤ 10 ^ 999 * x.num) (hhi : x.num < 10 ^ 999 * x.den) (k : Bool) :
+    (sciCore W c (if dm then ['D'] else []) x).length = W ∧
+    ∃ f : Fld, f.wf = true ∧ sciCore W c (if dm then ['D'] else []) x = rjust W f.text ∧
+      f.neg = x.neg ∧ (∃ e, f.ex = some e ∧ e.dmark = dm) ∧
+      nasSscanf (sciCore W c (if dm then ['D'] else []) x) k =
+        .flt (toBits f.dec.1 f.dec.2.1 f.dec.2.2) ∧
+      |decRat f.dec - dblRat x| ≤
+        (1 / 2 * (10 : ℚ) ^ (-(sciPrec c x.neg (natDigits f.expVal.natAbs).length : Int)) +
+          1 / 2 * (10 : ℚ) ^ (-(c.ePrec : Int))) * (10 : ℚ) ^ f.expVal := by
+  obtain ⟨f, hwf, hshape, hlen, hneg, _, _, hex, hacc⟩ := sciCore_main W c dm hc x hn hd hlo hhi
+  refine ⟨?_, f, hwf, hshape, hneg, hex, ?_, hacc⟩
+  · rw [hshape]; exact rjust_length_of_le _ _ hlen
+  · rw [hshape, rjust]; exact nasSscanf_field f hwf _ k
+
+/-- `_format_scientific8`, `_format_scientific16` and `format_double16` themselves (zero included:
+`0.` / `0.D+0`): exactly 8 / 16 / 16 characters for every fraction with `10^-999 ≤ |x| < 10^999`
+or `x = 0`. -/
+theorem sci_width (x : Dbl) (hd : 0 < x.den)
+    (hr : x.num = 0 ∨ (x.den ≤ 10 ^ 999 * x.num ∧ x.num < 10 ^ 999 * x.den)) :
+    (formatScientific8 x).length = 8 ∧ (formatScientific16 x).length = 16 ∧
+      (formatDouble16 x).length = 16 := by
+  obtain ⟨h8, h16, hd16⟩ := sci_consts_ok
+  rcases Nat.eq_zero_or_pos x.num with h0 | hn
+  · have hz : x.isZero = true := by simp [Dbl.isZero, h0]
+    simp [formatScientific8, formatScientific16, formatScientific, formatDouble16, hz, rjust]
+  · have hz : x.isZero = false := by
+      have : x.num ≠ 0 := by omega
+      simp [Dbl.isZero, this]
+    rcases hr with h0 | ⟨hlo, hhi⟩
+    · omega
+    · refine ⟨?_, ?_, ?_⟩
+      · simpa [formatScientific8, formatScientific, hz] using
+          (sci_width_accuracy 8 sci8 false h8 x hn hd hlo hhi true).1
+      · simpa [formatScientific16, formatScientific, hz] using
+          (sci_width_accuracy 16 sci16 false h16 x hn hd hlo hhi true).1
+      · simpa [formatDouble16, hz] using
+          (sci_width_accuracy 16 dbl16 true hd16 x hn hd hlo hhi true).1
+
+/-- non-vacuity: `x = 99999.6` (rounds up to the next power of ten in both stages) and
+`x = -1.5e-100` (three exponent digits) satisfy the hypotheses. -/
+example : ∃ x y : Dbl, 0 < x.num ∧ 0 < x.den ∧ x.den ≤ 10 ^ 999 * x.num ∧ x.num < 10 ^ 999 * x.den ∧
+    0 < y.num ∧ 0 < y.den ∧ y.den ≤ 10 ^ 999 * y.num ∧ y.num < 10 ^ 999 * y.den ∧ y.neg = true ∧
+    (formatScientific8 x).length = 8 ∧ (formatDouble16 y).length = 16 :=
+  ⟨⟨false, 999996, 10⟩, ⟨true, 15, 10 ^ 101⟩, by decide, by decide, by decide +kernel,
+    by decide +kernel, by decide, by decide +kernel, by decide +kernel, by decide +kernel, rfl,
+    (sci_width _ (by decide) (Or.inr ⟨by decide +kernel, by decide +kernel⟩)).1,
+    (sci_width _ (by decide +kernel) (Or.inr ⟨by decide +kernel, by decide +kernel⟩)).2.2⟩
+
+/-! ## the small-magnitude mixed branches and the final integer branches -/
+
+/-- **Small-magnitude mixed branch, positive chain** (`value < 0.001`: scientific field, or
+`.000ddd` when that is as wide at most and reads back as the same double).  For every positive
+fraction in `10^-999 ≤ x < 10^999` (and, where the 8-wide formatter's final `strip(" 0")` applies,
+`10^-9 ≤ x < 10^-1`: the exponent is one non-zero digit) the branch returns exactly `W`
+characters, a well-formed field that `nas_sscanf` reads back as the real nearest to its decimal;
+the field is either the scientific field of `sci_width_accuracy` (same bound) or the fixed field
+of precision `p` (within `½·10^-p` of `x`). -/
+theorem small_branch_pos (W p : Nat) (c : Sci) (hc : SciOK W c 0) (hp : 1 ≤ p) (x : Dbl)
+    (hneg : x.neg = false) (hn : 0 < x.num) (hd : 0 < x.den)
+    (hlo : x.den ≤ 10 ^ 999 * x.num) (hhi : x.num < 10 ^ 999 * x.den)
+    (h8 : W = 8 → x.den ≤ 10 ^ 9 * x.num ∧ x.num * 10 ^ 1 < x.den) (k : Bool) :
+    (smallPos W p c x).length = W ∧
+    ∃ f : Fld, f.wf = true ∧ smallPos W p c x = rjust W f.text ∧
+      nasSscanf (smallPos W p c x) k = .flt (toBits f.dec.1 f.dec.2.1 f.dec.2.2) ∧
+      (sciCore W c [] x = rjust W f.text ∨
+        (f = fixedFld false true p (rheDiv (x.num * 10 ^ p) x.den) ∧
+          |decRat f.dec - dblRat x| ≤ 1 / 2 * (10 : ℚ) ^ (-(p : Int)))) := by
+  obtain ⟨f, hwf, hlen, hshape, hcase⟩ := smallPos_good W p c hc hp x hneg hn hd hlo hhi h8
+  refine ⟨by rw [hshape]; exact rjust_length_of_le _ _ hlen, f, hwf, hshape, ?_, ?_⟩
+  · rw [hshape, rjust]; exact nasSscanf_field f hwf _ k
+  · rcases hcase with h | h
+    · exact Or.inl h
+    · exact Or.inr ⟨h, by rw [h]; exact fixed_rat_err false true p x hd hneg⟩
+
+/-- **Small-magnitude mixed branch, negative chain** (`value > -0.01`: scientific field, or
+`-.000ddd` when that is as wide at most and reads back as the same double).  For every negative
+fraction in range with `|x| ≥ 10^-(p+1)` (`p`, `p+1` not multiples of ten: `tables_format_ok`) the
+branch returns exactly `W` characters, a well-formed field read back as the real nearest to its
+decimal.  When `x` rounds to zero at precision `p` (`|x| ≤ ½·10^-p`: the double just below the
+literal `5e-7` / `5e-15`) the comparison `float(field1) == float("-0.")` is false — the scientific
+field does not read as zero (`toBits_nonzero`) — and the scientific field is returned. -/
+theorem small_branch_neg (W p : Nat) (c : Sci) (hc : SciOK W c 0) (hp : 1 ≤ p) (hp2 : p + 1 ≤ 250)
+    (hpd : p % 10 ≠ 0 ∧ (p + 1) % 10 ≠ 0) (x : Dbl)
+    (hneg : x.neg = true) (hn : 0 < x.num) (hd : 0 < x.den)
+    (hlo : x.den ≤ 10 ^ 999 * x.num) (hhi : x.num < 10 ^ 999 * x.den)
+    (hlow : x.den ≤ 10 ^ (p + 1) * x.num)
+    (h8 : W = 8 → x.den ≤ 10 ^ 9 * x.num ∧ x.num * 10 ^ 1 < x.den) (k : Bool) :
+    (smallNeg W p c x).length = W ∧
+    ∃ f : Fld, f.wf = true ∧ smallNeg W p c x = rjust W f.text ∧
+      nasSscanf (smallNeg W p c x) k = .flt (toBits f.dec.1 f.dec.2.1 f.dec.2.2) ∧
+      (sciCore W c [] x = rjust W f.text ∨
+        (f = fixedFld true true p (rheDiv (x.num * 10 ^ p) x.den) ∧
+          |decRat f.dec - dblRat x| ≤ 1 / 2 * (10 : ℚ) ^ (-(p : Int)))) := by
+  obtain ⟨f, hwf, hlen, hshape, hcase⟩ := smallNeg_good W p c hc hp hp2 hpd x hneg hn hd hlo hhi hlow h8
+  refine ⟨by rw [hshape]; exact rjust_length_of_le _ _ hlen, f, hwf, hshape, ?_, ?_⟩
+  · rw [hshape, rjust]; exact nasSscanf_field f hwf _ k
+  · rcases hcase with h | h
+    · exact Or.inl h
+    · exact Or.inr ⟨h, by rw [h]; exact fixed_rat_err true true p x hd hneg⟩
+
+/-- **Final branches** (`dddddddd.` and `-ddddddd.`): below the carry guard (`x < 10^(W-1) − ½`,
+resp. `|x| < 10^(W-2) − ½`: `table_rows_ok` shows the guards of the tables are these) the branch
+returns exactly `W` characters, the rounded integer with a decimal point — a well-formed field
+read back as a real, within half a unit of `x`. -/
+theorem last_branches (W : Nat) (c : Sci) (hW : 3 ≤ W) (x : Dbl) (hd : 0 < x.den) (k : Bool) :
+    (x.neg = false → 2 * x.num < (2 * 10 ^ (W - 1) - 1) * x.den →
+      (lastPos W c (1, 1) x).length = W ∧
+      ∃ f : Fld, f.wf = true ∧ lastPos W c (1, 1) x = rjust W f.text ∧
+        nasSscanf (lastPos W c (1, 1) x) k = .flt (toBits f.dec.1 f.dec.2.1 f.dec.2.2) ∧
+        |decRat f.dec - dblRat x| ≤ 1 / 2) ∧
+    (x.neg = true → 2 * x.num < (2 * 10 ^ (W - 2) - 1) * x.den →
+      (lastNeg W c (1, W - 1) x).length = W ∧
+      ∃ f : Fld, f.wf = true ∧ lastNeg W c (1, W - 1) x = rjust W f.text ∧
+        nasSscanf (lastNeg W c (1, W - 1) x) k = .flt (toBits f.dec.1 f.dec.2.1 f.dec.2.2) ∧
+        |decRat f.dec - dblRat x| ≤ 1 / 2) := by
+  constructor
+  · intro hneg hg
+    obtain ⟨fp, hfp, hshape, hlen⟩ := lastPos_shape W c (by omega) x hneg hd hg
+    have hwf := intFld_wf false (rheDiv x.num x.den) fp hfp
+    refine ⟨by rw [hshape]; exact rjust_length_of_le _ _ hlen, _, hwf, hshape, ?_,
+      int_rat_err false x hd hneg fp hfp⟩
+    rw [hshape, rjust]; exact nasSscanf_field _ hwf _ k
+  · intro hneg hg
+    obtain ⟨hshape, hlen⟩ := lastNeg_shape W c hW x hneg hd hg
+    have hrabs : (roundInt x).natAbs = rheDiv x.num x.den := by
+      unfold roundInt; simp [hneg]
+    have hwf := intFld_wf (decide (roundInt x < 0)) (roundInt x).natAbs [] (Or.inl rfl)
+    refine ⟨by rw [hshape]; exact rjust_length_of_le _ _ hlen, _, hwf, hshape, ?_, ?_⟩
+    · rw [hshape, rjust]; exact nasSscanf_field _ hwf _ k
+    · -- the sign written is that of the rounded integer: `-0` is written `0.`
+      rw [hrabs]
+      by_cases hr0 : rheDiv x.num x.den = 0
+      · have hz : roundInt x = 0 := by unfold roundInt; simp [hneg, hr0]
+        have hr := rheDiv_rat x.num x.den hd
+        rw [hr0] at hr ⊢
+        rw [intFld_rat _ 0 [] (Or.inl rfl)]
+        unfold dblRat
+        rw [hneg]
+        simp only [Nat.cast_zero, mul_zero, if_true, zero_sub] at hr ⊢
+        rw [abs_neg] at hr ⊢
+        simpa using hr
+      · have hlt : roundInt x < 0 := by
+          unfold roundInt; simp [hneg]; omega
+        have : decide (roundInt x < 0) = true := by simpa using hlt
+        rw [this]
+        exact int_rat_err true x hd hneg [] (Or.inl rfl)
+
+/-- non-vacuity: `x = 0.0005` in the 8-wide mixed branch (precision 7), `x = -0.0005` in the
+negative one (precision 6), `x = 1234567.4` and `x = -123456.4` in the final branches. -/
+example : (∃ x : Dbl, x.neg = false ∧ 0 < x.num ∧ 0 < x.den ∧ x.den ≤ 10 ^ 999 * x.num ∧
+      x.num < 10 ^ 999 * x.den ∧ x.den ≤ 10 ^ 9 * x.num ∧ x.num * 10 ^ 1 < x.den) ∧
+    (∃ x : Dbl, x.neg = true ∧ 0 < x.num ∧ x.den ≤ 10 ^ (6 + 1) * x.num ∧ x.num * 10 ^ 1 < x.den) ∧
+    (∃ x : Dbl, x.neg = false ∧ 0 < x.den ∧ 2 * x.num < (2 * 10 ^ (8 - 1) - 1) * x.den) ∧
+    (∃ x : Dbl, x.neg = true ∧ 0 < x.den ∧ 2 * x.num < (2 * 10 ^ (8 - 2) - 1) * x.den) :=
+  ⟨⟨⟨false, 5, 10000⟩, rfl, by decide, by decide, by decide +kernel, by decide +kernel, by decide,
+     by decide⟩,
+   ⟨⟨true, 5, 10000⟩, rfl, by decide, by decide, by decide⟩,
+   ⟨⟨false, 12345674, 10⟩, rfl, by decide, by decide⟩,
+   ⟨⟨true, 1234564, 10⟩, rfl, by decide, by decide⟩⟩
+
+/-! ## the formatters as a whole -/
+
+/-- the decidable side conditions of the if-chain dispatch hold for the tables extracted from the
+source: every literal bound as the double the code compares with (sign, exactness of the powers
+of ten and of the carry guards), `RowOK` of every fixed-notation row, the lower bound each row
+inherits from the failed test before it (`≥ 10^-p`: the row never rounds to zero; `≥ 10^-9` and
+`< 10^-1` for the 8-wide mixed rows), the final branches' guards. -/
+theorem tables_format_ok :
+    FormatOK 8 pos8 neg8 posLast8 negLast8 ∧ FormatOK 16 pos16 neg16 posLast16 negLast16 := by
+  decide
+
+/-- **`format_float8` and `format_float16` as a whole** (the if-chains interpreted from the
+generated tables, every branch): for every fraction `x` that is zero or has
+`10^-999 ≤ |x| < 10^999` — in particular every finite double — the result has exactly 8 / 16
+characters, is a well-formed field of the emitted grammar and is read back by `nas_sscanf` as the
+real nearest to its decimal.  (The accuracy of each branch is in `fixed_branch_accuracy`,
+`sci_width_accuracy`, `small_branch_pos`, `small_branch_neg`, `last_branches`.) -/
+theorem format_float_total (x : Dbl) (hd : 0 < x.den)
+    (hr : x.num = 0 ∨ (x.den ≤ 10 ^ 999 * x.num ∧ x.num < 10 ^ 999 * x.den)) (k : Bool) :
+    ((formatFloat8 x).length = 8 ∧ ∃ f : Fld, f.wf = true ∧ formatFloat8 x = rjust 8 f.text ∧
+        nasSscanf (formatFloat8 x) k = .flt (toBits f.dec.1 f.dec.2.1 f.dec.2.2)) ∧
+    ((formatFloat16 x).length = 16 ∧ ∃ f : Fld, f.wf = true ∧ formatFloat16 x = rjust 16 f.text ∧
+        nasSscanf (formatFloat16 x) k = .flt (toBits f.dec.1 f.dec.2.1 f.dec.2.2)) := by
+  obtain ⟨h8, h16⟩ := tables_format_ok
+  obtain ⟨s8, s16, _⟩ := sci_consts_ok
+  constructor
+  · have hg := formatFloat_good 8 sci8 pos8 neg8 posLast8 negLast8 s8 (by norm_num) h8 x hd hr
+    have e : formatFloat8 x = (if geZero x then chain 8 sci8 false (lastPos 8 sci8 posLast8) pos8 x
+        else chain 8 sci8 true (lastNeg 8 sci8 negLast8) neg8 x) := rfl
+    rw [← e] at hg
+    exact ⟨hg.length, hg.scan k⟩
+  · have hg := formatFloat_good 16 sci16 pos16 neg16 posLast16 negLast16 s16 (by norm_num) h16 x hd hr
+    have e : formatFloat16 x = (if geZero x then chain 16 sci16 false (lastPos 16 sci16 posLast16) pos16 x
+        else chain 16 sci16 true (lastNeg 16 sci16 negLast16) neg16 x) := rfl
+    rw [← e] at hg
+    exact ⟨hg.length, hg.scan k⟩
+
+/-- non-vacuity: zero, `x = -4.99999999999999977e-07` (the double just below the literal `5e-7`,
+which rounds to zero at the negative mixed branch's precision) and `x = 9999999.4999` satisfy the
+hypotheses. -/
+example : (∃ x : Dbl, 0 < x.den ∧ x.num = 0) ∧
+    (∃ x : Dbl, x.neg = true ∧ 0 < x.den ∧ x.den ≤ 10 ^ 999 * x.num ∧ x.num < 10 ^ 999 * x.den ∧
+      2 * (x.num * 10 ^ 6) ≤ x.den ∧ mge x (litDbl 1 2000000)) :=
+  ⟨⟨⟨false, 0, 1⟩, by decide, rfl⟩,
+   ⟨⟨true, (litDbl 1 2000000).num, (litDbl 1 2000000).den⟩, rfl, by decide +kernel, by decide +kernel,
+     by decide +kernel, by decide +kernel, by decide +kernel⟩⟩
 
 /-- Below the carry guard `M − ½` (`M = 10^(W-2)`) the integer written by the final negative
 branch, `int(round(x, 0))`, stays below `M`: it has at most `W − 2` digits, so `-ddddddd.` fits. -/
@@ -157,6 +462,125 @@ example : ∀ t ∈ [Tok.int 101, Tok.blank, Tok.int (-7)], (enc 8 formatFloat8 
   · have : (intStr (-7)).length ≤ 8 := by
       have := natDigits_length_le 0 7 (by norm_num); simp [intStr]; omega
     simp [enc, rjust]; omega
+
+/-- a string field that is a Nastran name (letter first, no white space inside), left-justified
+in any width, is read back as the same string. -/
+theorem str_field_roundtrip (W : Nat) (fmt : Dbl → Str) (c0 : Char) (t : Str)
+    (hc0 : isLetter c0 = true) (hws : ∀ c ∈ c0 :: t, isWs c = false) :
+    cardVal (enc W fmt (.str (c0 :: t))) = .str (c0 :: t) := by
+  have : enc W fmt (.str (c0 :: t)) = (c0 :: t) ++ List.replicate (W - (c0 :: t).length) ' ' := by
+    simp [enc, ljust]
+  rw [this, cardVal, nasSscanf_name c0 t _ hc0 hws]
+
+/-- which formatted fields satisfy the side condition `CardField` of the card theorems: blanks,
+integers that fit, names that fit, and every real field of the emitted grammar that fits (by
+`fixed_branch_accuracy` / `sci_width_accuracy` the formatters' outputs are of this form). -/
+theorem card_fields_ok (W : Nat) (fmt : Dbl → Str) :
+    CardField W (enc W fmt .blank) ∧
+    (∀ n : Int, (intStr n).length ≤ W → CardField W (enc W fmt (.int n))) ∧
+    (∀ s : Str, s ≠ [] → s.length ≤ W → (∀ c ∈ s, isWs c = false ∧ c ≠ '$' ∧ c ≠ ',') →
+      CardField W (enc W fmt (.str s))) ∧
+    (∀ f : Fld, f.wf = true → f.text.length ≤ W → CardField W (rjust W f.text)) := by
+  refine ⟨cardField_blank W, fun n h => cardField_int W fmt n h, ?_, fun f h1 h2 => cardField_fld W f h1 h2⟩
+  intro s hne hlen hch
+  have : enc W fmt (.str s) = ljust W s := by
+    cases s with
+    | nil => exact absurd rfl hne
+    | cons a t => simp [enc]
+  rw [this]
+  exact cardField_ljust W s hlen hch
+
+/-- **`card_roundtrip`, small-field form** (`wtcard8`): for every card name (letter first, at most
+8 characters, no `*`) and every list of fields — any length, so any number of `+` continuation
+lines, blanks anywhere — whose formatted fields are card fields (`card_fields_ok`), the generic
+reader finds exactly one card in the written text and, up to trailing blank fields, returns the
+name (when kept) followed by the value of every written field, field for field:
+`rdcards (wtcard8 fields) = canon fields`.  The exact list (blank padding of continued lines, the
+trailing blanks of the last physical line dropped) is `wtcard8_rdcards`. -/
+theorem card_roundtrip_small (name : Str) (toks : List Tok) (keep : Bool) (hname : NameOK name)
+    (hstar : ∀ c ∈ name, c ≠ '*') (hf : ∀ t ∈ toks, CardField 8 (enc 8 formatFloat8 t)) :
+    ∃ text r, wtcard8 name toks = some text ∧ rdcards name keep text = [r] ∧
+      dtb r = (if keep then [NasVal.str name] else []) ++
+        dtb (toks.map fun t => cardVal (enc 8 formatFloat8 t)) :=
+  wtcard8_roundtrip name toks keep hname hstar hf
+
+/-- **`card_roundtrip`, large-field forms** (`wtcard16`, `wtcard16d`): 16-wide fields, four per
+line, `*` continuation lines, the `*` in column 73 before every second line break and the final
+`*` line that makes the line count even.  For every card name ending in `*` (letter first, at most
+8 characters) and every list of fields whose formatted fields are card fields, the generic reader
+finds exactly one card and, up to trailing blank fields, returns the name (when kept) followed by
+the value of every written field. -/
+theorem card_roundtrip_large (name : Str) (toks : List Tok) (keep : Bool) (hname : NameOK name)
+    (hstar : name.getLast? = some '*') :
+    ((∀ t ∈ toks, CardField 16 (enc 16 formatFloat16 t)) →
+      ∃ text r, wtcard16 name toks = some text ∧ rdcards name keep text = [r] ∧
+        dtb r = (if keep then [NasVal.str name] else []) ++
+          dtb (toks.map fun t => cardVal (enc 16 formatFloat16 t))) ∧
+    ((∀ t ∈ toks, CardField 16 (enc 16 formatDouble16 t)) →
+      ∃ text r, wtcard16d name toks = some text ∧ rdcards name keep text = [r] ∧
+        dtb r = (if keep then [NasVal.str name] else []) ++
+          dtb (toks.map fun t => cardVal (enc 16 formatDouble16 t))) :=
+  ⟨fun hf => wtcard16_roundtrip formatFloat16 name toks keep hname hstar hf,
+   fun hf => wtcard16_roundtrip formatDouble16 name toks keep hname hstar hf⟩
+
+/-- **`card_roundtrip`, free-field (comma) form** (`_rdcomma`): for a card written as
+`NAME,f1,…,f8` with continuation lines `+,f9,…` or `,f9,…` (at most 8 tokens per line; tokens
+without comma, `$`, newline or white space at their right end; **lines of any length** — the
+reader does not cut a free-field line at column 72 or anywhere else), the generic reader finds
+exactly one card: the name (when kept) followed by the values of the tokens, every continued line
+padded with blanks to 8 fields. -/
+theorem card_roundtrip_comma (name : Str) (keep : Bool) (hname : NameOK name) (c0 : List Str)
+    (hc0ne : c0 ≠ []) (hc0len : c0.length ≤ 8) (hc0 : ∀ t ∈ c0, TokOK t)
+    (conts : List (Str × List Str))
+    (hconts : ∀ p ∈ conts, ContOK p.1 p.2 ∧ p.2.length ≤ 8 ∧ ∀ t ∈ p.2, TokOK t) :
+    rdcards name keep (commaText name c0 conts) =
+      [(if keep then [NasVal.str name] else []) ++
+        glue 8 ((c0 :: conts.map Prod.snd).map (List.map cardVal))] :=
+  comma_rdcards name keep hname c0 hc0ne hc0len hc0 conts hconts
+
+/-- **fixed-field and free-field forms read identically**: whenever, line by line, the values of
+the free-field tokens `ws` and of the fixed fields `vs` agree up to trailing blanks (a continued
+free-field line may omit its trailing blank fields), the free-field reading `glue 8 ws`
+(`card_roundtrip_comma`) and the fixed-field reading `glue 8 (vs.map dtb)` (`wtcard8_rdcards`) are
+equal up to trailing blanks, and both are the fields themselves. -/
+theorem card_fixed_comma_agree (ws vs : List (List NasVal)) (hw : ∀ w ∈ ws, w.length ≤ 8)
+    (hsame : ws.map dtb = vs.map dtb) (hok : GlueOK 8 vs) :
+    dtb (glue 8 ws) = dtb (glue 8 (vs.map dtb)) ∧ dtb (glue 8 ws) = dtb vs.flatten :=
+  fixed_comma_agree ws vs hw hsame hok
+
+/-- non-vacuity: a free-field card whose first line is 78 characters long, continued by a line
+that starts with the comma. -/
+example : ∃ (name : Str) (c0 : List Str) (conts : List (Str × List Str)), NameOK name ∧ c0 ≠ [] ∧
+    c0.length ≤ 8 ∧ (∀ t ∈ c0, TokOK t) ∧
+    (∀ p ∈ conts, ContOK p.1 p.2 ∧ p.2.length ≤ 8 ∧ ∀ t ∈ p.2, TokOK t) ∧
+    (commaLine name c0).length = 78 := by
+  refine ⟨"CORD2R".toList, List.replicate 8 "-1.23456".toList, [([], ["7".toList])],
+    ⟨⟨'C', "ORD2R".toList, rfl, by decide⟩, by decide, by decide⟩, by simp, by simp, ?_, ?_, by decide⟩
+  · intro t ht
+    rw [List.eq_of_mem_replicate ht]
+    exact ⟨by decide, by decide⟩
+  · intro p hp
+    simp only [List.mem_cons, List.not_mem_nil, or_false] at hp
+    subst hp
+    refine ⟨Or.inr ⟨rfl, by simp⟩, by simp, ?_⟩
+    intro t ht
+    simp only [List.mem_cons, List.not_mem_nil, or_false] at ht
+    subst ht
+    exact ⟨by decide, by decide⟩
+
+/-- non-vacuity: a card of 19 fields (three physical lines) with blanks spanning a line end. -/
+example : ∃ (name : Str) (toks : List Tok), NameOK name ∧ (∀ c ∈ name, c ≠ '*') ∧ toks.length = 19 ∧
+    ∀ t ∈ toks, CardField 8 (enc 8 formatFloat8 t) := by
+  refine ⟨"GRID".toList, List.replicate 6 (Tok.int 7) ++ List.replicate 5 Tok.blank ++ List.replicate 8 (Tok.int (-3)),
+    ⟨⟨'G', "RID".toList, rfl, by decide⟩, by decide, by decide⟩, by decide, by simp, ?_⟩
+  intro t ht
+  simp only [List.mem_append, List.mem_replicate] at ht
+  rcases ht with (⟨_, rfl⟩ | ⟨_, rfl⟩) | ⟨_, rfl⟩
+  · exact cardField_int 8 _ 7 (by
+      have := natDigits_length_le 0 7 (by norm_num); simp [intStr]; omega)
+  · exact cardField_blank 8
+  · exact cardField_int 8 _ (-3) (by
+      have := natDigits_length_le 0 3 (by norm_num); simp [intStr]; omega)
 
 end cards
 
